@@ -16,7 +16,7 @@ def run(ctx):
                        "the idle-in-transaction timeout leaves the loop without a round trip and goes through checkin_cleanup (ROLLBACK): exempt by construction"]
     h = ctx.body(H)
     r1 = ctx.rule("C01-R1", "after a server round trip, the transaction loop is left towards the release path only where Server::in_transaction() returned false", floor=3)
-    r2 = ctx.rule("C01-R2", "after a round trip whose reply may start a COPY (send_and_receive_loop), the loop is left only where Server::in_copy_mode() returned false", floor=2)
+    r2 = ctx.rule("C01-R2", "after a round trip (any reply may start a COPY: the reply to a Query or Sync, and the reply to CopyDone when the query holds another COPY) the loop is left only where Server::in_copy_mode() returned false", floor=3)
     r3 = ctx.rule("C01-R3", "the server is released after a round trip only in transaction mode (session mode keeps it until the client leaves)", floor=3)
     if h is None:
         r1.missing("body " + H)
@@ -71,7 +71,8 @@ def run(ctx):
         w = esc(F_tx)
         r1.check(w is None, "after:" + key, "after %s the loop is left towards release only on in_transaction()==false" % key,
                  "after %s the server can be released while it still reports an open transaction (another client would run inside it)" % key, c.where(), w and h.describe_path(w))
-        if short == "send_and_receive_loop":
+        # every reply may start a COPY: also the reply to CopyDone, when the simple query holds another COPY behind the first (D37)
+        if True:
             w = esc(F_cp)
             r2.check(w is None, "after:" + key, "after %s the loop is left towards release only on in_copy_mode()==false" % key,
                      "after %s the server can be released while a COPY is in progress" % key, c.where(), w and h.describe_path(w))
